@@ -139,6 +139,81 @@ theorem parCount_shared (sl sr : Option Str) (o : Op3) (a b : Expr) (ha : Bin a)
     parCount_nopar _ _ _ (plain_optPost sr hsr).noPar]
   simp [Validate.parCount]
 
+/-- `detectCombinations` on the shared form, with any fuel: no rewriting, the level map holds the
+    incomplete outer boundary on level 1 and the combination on level 2 -/
+theorem detect_shared (sl sr : Option Str) (o : Op3) (a b : Expr) (ha : Bin a) (hb : Bin b)
+    (hsl : ∀ t, sl = some t → SWord t) (hsr : ∀ t, sr = some t → SWord t) (fuel : Nat) :
+    ∃ rest, detect '(' ')' fuel (sharedText sl o a b sr)
+      = .ok ([outerBnd (1 + (optPre sl).length + (renderE (.comb o a b)).length + (optPost sr).length)]
+              :: [bnd o a b (1 + (optPre sl).length)] :: rest) (sharedText sl o a b sr) := by
+  obtain ⟨lm', hsc, h0, h1⟩ := scan_shared sl sr o a b ha hb hsl hsr
+  have hpc := parCount_shared sl sr o a b ha hb hsl hsr
+  obtain ⟨x0, x1, rest, hlm⟩ : ∃ x0 x1 rest, lm' = x0 :: x1 :: rest := by
+    cases lm' with
+    | nil => simp at h0
+    | cons x0 t =>
+      cases t with
+      | nil => simp at h1
+      | cons x1 rest => exact ⟨x0, x1, rest, rfl⟩
+  subst hlm
+  simp only [List.getElem?_cons_zero, List.getElem?_cons_succ, Option.some.injEq] at h0 h1
+  subst h0 h1
+  refine ⟨rest, ?_⟩
+  rw [detect]
+  simp only [hpc, hsc]
+  simp
+
+/-- what `ParseIntoNodeTree` builds from that level map -/
+theorem afterDetect_shared (sl sr : Option Str) (o : Op3) (a b : Expr) (ha : BinW a) (hb : BinW b)
+    (hsl : ∀ t, sl = some t → SWord t) (hsr : ∀ t, sr = some t → SWord t) (nested : Bool) (f : Nat)
+    (hf : depth (.comb o a b) ≤ f + 1) (rest : LM) :
+    afterDetect '(' ')' (parse false f) nested
+        (.ok ([outerBnd (1 + (optPre sl).length + (renderE (.comb o a b)).length + (optPost sr).length)]
+              :: [bnd o a b (1 + (optPre sl).length)] :: rest) (sharedText sl o a b sr))
+      = .res ⟨.comb o.str (optList sl) (optList sr) (treeOf a) (treeOf b), sharedText sl o a b sr, cNoError⟩ := by
+  simp only [depth] at hf
+  -- the text around the combination
+  have hpre : ('(' :: optPre sl).length = 1 + (optPre sl).length := by simp; omega
+  have hI : sharedText sl o a b sr = ('(' :: optPre sl) ++ renderE (.comb o a b) ++ (optPost sr ++ [')']) := by
+    simp [sharedText]
+  have hc := length_render_comb o a b
+  have hbr : (o.br).length = o.str.length + 2 := by simp [Op3.br]
+  -- shared text through the enclosing boundary
+  have hl : slice (sharedText sl o a b sr) 1 (1 + (optPre sl).length + 1) = optPre sl ++ ['('] :=
+    slice_of _ ['('] (optPre sl ++ ['(']) (renderE a ++ ' ' :: o.br ++ ' ' :: renderE b ++ ')' :: optPost sr ++ [')']) _ _
+      (by simp [sharedText, renderE]) (by simp) (by simp; omega)
+  have hr : slice (sharedText sl o a b sr) (1 + (optPre sl).length + (renderE a).length + (renderE b).length + o.str.length + 5)
+      (1 + (optPre sl).length + (renderE (.comb o a b)).length + (optPost sr).length) = ')' :: optPost sr :=
+    slice_of _ ('(' :: optPre sl ++ '(' :: renderE a ++ ' ' :: o.br ++ ' ' :: renderE b) (')' :: optPost sr) [')'] _ _
+      (by simp [sharedText, renderE]) (by simp [hbr]; omega) (by simp [hbr, hc]; omega)
+  have hsh : extractShared (('(' :: optPre sl) ++ renderE (.comb o a b) ++ (optPost sr ++ [')']))
+      ([outerBnd (1 + (optPre sl).length + (renderE (.comb o a b)).length + (optPost sr).length)]
+        :: [bnd o a b (1 + (optPre sl).length)] :: rest) 1 0
+      [bnd o a b ('(' :: optPre sl).length] (bnd o a b ('(' :: optPre sl).length) = (optList sl, optList sr) := by
+    rw [← hI, hpre]
+    have hfind : (List.find? (fun v => decide (v.left < (bnd o a b (1 + (optPre sl).length)).left)
+          && decide (v.right > (bnd o a b (1 + (optPre sl).length)).right) && v.opVal == [])
+        [outerBnd (1 + (optPre sl).length + (renderE (.comb o a b)).length + (optPost sr).length)])
+        = some (outerBnd (1 + (optPre sl).length + (renderE (.comb o a b)).length + (optPost sr).length)) := by
+      have c1 : 1 < 1 + (optPre sl).length + 1 := by omega
+      have c2 : 1 + (optPre sl).length + (renderE (.comb o a b)).length + (optPost sr).length
+          > 1 + (optPre sl).length + (renderE a).length + (renderE b).length + o.str.length + 5 := by omega
+      simp [List.find?, outerBnd, bnd, c1, c2]
+    simp only [extractShared, enclosing, List.getElem?_cons_zero, Option.getD_some, hfind, if_true, Nat.zero_add,
+      List.getElem?_cons_succ, List.getElem?_nil]
+    simp only [outerBnd, bnd, hl, hr, cleanShared_pre sl hsl, cleanShared_post sr hsr]
+  have := procEntries_comb o a b ha hb f ('(' :: optPre sl) (optPost sr ++ [')']) nested
+    ([outerBnd (1 + (optPre sl).length + (renderE (.comb o a b)).length + (optPost sr).length)]
+        :: [bnd o a b (1 + (optPre sl).length)] :: rest) 1 (optList sl) (optList sr)
+    (fun o' l' r' h a' b' => parse_render_aux a ha o' l' r' h f a' b' true (by omega))
+    (fun o' l' r' h a' b' => parse_render_aux b hb o' l' r' h f a' b' true (by omega)) hsh
+  rw [← hI, hpre] at this
+  rw [afterDetect]
+  simp only [List.isEmpty_cons, Bool.false_eq_true, if_false, firstComplete, List.any_cons, List.any_nil, Bool.or_false,
+    outerBnd, bnd, if_true]
+  simp only [outerBnd, bnd] at this
+  exact this
+
 /-- **Shared text.** `(l (a [o] b) r)` is parsed into the combination node of `a` and `b` that
     carries `l` as shared left and `r` as shared right text (either may be absent). -/
 theorem parse_shared (sl sr : Option Str) (o : Op3) (a b : Expr) (ha : BinW a) (hb : BinW b)
@@ -149,74 +224,15 @@ theorem parse_shared (sl sr : Option Str) (o : Op3) (a b : Expr) (ha : BinW a) (
   cases fuel with
   | zero => simp [depth] at hf
   | succ f =>
-    simp only [depth] at hf
     rw [render_shared]
-    obtain ⟨lm', hsc, h0, h1⟩ := scan_shared sl sr o a b ha.bin hb.bin hsl hsr
-    have hpc := parCount_shared sl sr o a b ha.bin hb.bin hsl hsr
-    -- the early exit does not apply
     have hT : sharedText sl o a b sr
         = ('(' :: optPre sl ++ '(' :: renderE a ++ [' ']) ++ o.br ++ (' ' :: renderE b ++ ')' :: optPost sr ++ [')']) := by
       simp [sharedText, renderE]
     have hu := parse_unfold o ('(' :: optPre sl ++ '(' :: renderE a ++ [' ']) (' ' :: renderE b ++ ')' :: optPost sr ++ [')']) f nested
     rw [← hT] at hu
-    rw [hu]
-    have hd : detect '(' ')' ((sharedText sl o a b sr).length + 1) (sharedText sl o a b sr) = .ok lm' (sharedText sl o a b sr) := by
-      rw [detect]
-      simp only [hpc, hsc]
-      simp
-    rw [hd]
-    -- the level map: level 1 holds the incomplete outer boundary, level 2 the combination
-    obtain ⟨x0, x1, rest, hlm⟩ : ∃ x0 x1 rest, lm' = x0 :: x1 :: rest := by
-      cases lm' with
-      | nil => simp at h0
-      | cons x0 t =>
-        cases t with
-        | nil => simp at h1
-        | cons x1 rest => exact ⟨x0, x1, rest, rfl⟩
-    subst hlm
-    simp only [List.getElem?_cons_zero, List.getElem?_cons_succ, Option.some.injEq] at h0 h1
-    subst h0 h1
-    -- the text around the combination
-    have hpre : ('(' :: optPre sl).length = 1 + (optPre sl).length := by simp; omega
-    have hI : sharedText sl o a b sr = ('(' :: optPre sl) ++ renderE (.comb o a b) ++ (optPost sr ++ [')']) := by
-      simp [sharedText]
-    have hc := length_render_comb o a b
-    have hbr : (o.br).length = o.str.length + 2 := by simp [Op3.br]
-    -- shared text through the enclosing boundary
-    have hl : slice (sharedText sl o a b sr) 1 (1 + (optPre sl).length + 1) = optPre sl ++ ['('] :=
-      slice_of _ ['('] (optPre sl ++ ['(']) (renderE a ++ ' ' :: o.br ++ ' ' :: renderE b ++ ')' :: optPost sr ++ [')']) _ _
-        (by simp [sharedText, renderE]) (by simp) (by simp; omega)
-    have hr : slice (sharedText sl o a b sr) (1 + (optPre sl).length + (renderE a).length + (renderE b).length + o.str.length + 5)
-        (1 + (optPre sl).length + (renderE (.comb o a b)).length + (optPost sr).length) = ')' :: optPost sr :=
-      slice_of _ ('(' :: optPre sl ++ '(' :: renderE a ++ ' ' :: o.br ++ ' ' :: renderE b) (')' :: optPost sr) [')'] _ _
-        (by simp [sharedText, renderE]) (by simp [hbr]; omega) (by simp [hbr, hc]; omega)
-    have hsh : extractShared (('(' :: optPre sl) ++ renderE (.comb o a b) ++ (optPost sr ++ [')']))
-        ([outerBnd (1 + (optPre sl).length + (renderE (.comb o a b)).length + (optPost sr).length)]
-          :: [bnd o a b (1 + (optPre sl).length)] :: rest) 1 0
-        [bnd o a b ('(' :: optPre sl).length] (bnd o a b ('(' :: optPre sl).length) = (optList sl, optList sr) := by
-      rw [← hI, hpre]
-      have hfind : (List.find? (fun v => decide (v.left < (bnd o a b (1 + (optPre sl).length)).left)
-            && decide (v.right > (bnd o a b (1 + (optPre sl).length)).right) && v.opVal == [])
-          [outerBnd (1 + (optPre sl).length + (renderE (.comb o a b)).length + (optPost sr).length)])
-          = some (outerBnd (1 + (optPre sl).length + (renderE (.comb o a b)).length + (optPost sr).length)) := by
-        have c1 : 1 < 1 + (optPre sl).length + 1 := by omega
-        have c2 : 1 + (optPre sl).length + (renderE (.comb o a b)).length + (optPost sr).length
-            > 1 + (optPre sl).length + (renderE a).length + (renderE b).length + o.str.length + 5 := by omega
-        simp [List.find?, outerBnd, bnd, c1, c2]
-      simp only [extractShared, enclosing, List.getElem?_cons_zero, Option.getD_some, hfind, if_true, Nat.zero_add,
-        List.getElem?_cons_succ, List.getElem?_nil]
-      simp only [outerBnd, bnd, hl, hr, cleanShared_pre sl hsl, cleanShared_post sr hsr]
-    have := procEntries_comb o a b ha hb f ('(' :: optPre sl) (optPost sr ++ [')']) nested
-      ([outerBnd (1 + (optPre sl).length + (renderE (.comb o a b)).length + (optPost sr).length)]
-          :: [bnd o a b (1 + (optPre sl).length)] :: rest) 1 (optList sl) (optList sr)
-      (fun o' l' r' h a' b' => parse_render_aux a ha o' l' r' h f a' b' true (by omega))
-      (fun o' l' r' h a' b' => parse_render_aux b hb o' l' r' h f a' b' true (by omega)) hsh
-    rw [← hI, hpre] at this
-    rw [afterDetect]
-    simp only [List.isEmpty_cons, Bool.false_eq_true, if_false, firstComplete, List.any_cons, List.any_nil, Bool.or_false,
-      outerBnd, bnd, if_true]
-    simp only [outerBnd, bnd] at this
-    exact this
+    obtain ⟨rest, hd⟩ := detect_shared sl sr o a b ha.bin hb.bin hsl hsr ((sharedText sl o a b sr).length + 1)
+    rw [hu, hd]
+    exact afterDetect_shared sl sr o a b ha hb hsl hsr nested f hf rest
 
 /-- the tree of the shared form is its documented meaning -/
 theorem toP_shared (sl sr : Option Str) (o : Op3) (a b : Expr) (ha : BinW a) (hb : BinW b) :
